@@ -715,6 +715,8 @@ class Evaluator:
     def ev_refine(self, t, ctx):
         old, how, ty = t.args
         v = self.eval(old, ctx)
+        if how == 'isnone':
+            return cav(None).replace(deps=v.deps)
         if how == 'notnone':
             if v.const is not TOP and None in v.const:
                 c = v.const - {None}
